@@ -261,6 +261,7 @@ class Scenario:
                         ses.close(); outcomes[key] = ('closed',)
                     elif op[0] == 'take':
                         n = ses.take_notification(op[1], 5 if op[1] else None)
+                        S.effect('took', n is None, len(ses._notification_q.d))     # what was queued when it returned
                         outcomes[key] = ('took', None if n is None else n.notification_xml)
             return body
         def server():
